@@ -249,12 +249,17 @@ fn dealing(rec: &mut Rec, ctx: &Ctx, idx: u64, rng: &mut ChaCha20Rng) {
   let mut point_rng = RecRng::new(case_rng(ctx, "point-stream", idx));
   let zero_point = idx % 7 == 3;
   if zero_point {
-    // the point draw of one gen() call sees an all-zero element
+    // the point draw of one gen() call sees a run of all-zero elements
+    // (1, 2, 127, 128, 129, 200 or 300 rejected draws before a usable one)
     let which = rng.gen_range(0..n_gen);
-    for j in 0..3 {
+    let run = *pick(rng, &[1usize, 1, 2, 127, 128, 129, 200, 300]);
+    for j in 0..3 * run {
       point_rng.splice.insert(3 * which + j, 0);
     }
     rec.ev("zero_point_stream");
+    if run > 100 {
+      rec.ev("zero_point_stream_long_run");
+    }
   }
   let mut gen_shares = Vec::new();
   for _ in 0..n_gen {
@@ -480,6 +485,58 @@ fn dealing(rec: &mut Rec, ctx: &Ctx, idx: u64, rng: &mut ChaCha20Rng) {
   }
 }
 
+/// the public get_evaluator with polynomials of DIFFERENT degrees, in every order
+fn mixed_degree_evaluator(rec: &mut Rec, _ctx: &Ctx, idx: u64, rng: &mut ChaCha20Rng) {
+  use star_sharks::get_evaluator;
+  let k = rng.gen_range(2..5usize);
+  let polys_big: Vec<Vec<BigUint>> = (0..k).map(|_| (0..rng.gen_range(1..8usize)).map(|_| elem_choices(rng)).collect()).collect();
+  let to_fp = |v: &BigUint| -> Fp { Option::<Fp>::from(Fp::from_repr(star_sharks::FpRepr(bf::to_le24(v)))).unwrap() };
+  let polys: Vec<Vec<Fp>> = polys_big.iter().map(|p| p.iter().map(to_fp).collect()).collect();
+  rec.evals += 1;
+  rec.ev("mixed_degree_evaluators");
+  rec.case(&("mixed-degree", polys_big.iter().map(|p| p.len()).collect::<Vec<_>>(), idx));
+  let mut ev = get_evaluator(polys);
+  let mut shares: Vec<Share> = (0..3).map(|_| ev.next().unwrap()).collect();
+  shares.push(ev.gen(rng));
+  for s in &shares {
+    for (i, p) in polys_big.iter().enumerate() {
+      rec.ev("horner_check");
+      if bf::horner_high_first(p, &of_fp(&s.x)) != of_fp(&s.y[i]) {
+        rec.violation(
+          "evaluation-wrong:mixed-degrees",
+          format!("polynomial {} of {} (lengths {:?}) evaluated at x={} disagrees with big-integer Horner evaluation", i, polys_big.len(), polys_big.iter().map(|p| p.len()).collect::<Vec<_>>(), of_fp(&s.x)),
+          json!({"polynomials_high_first": polys_big.iter().map(|p| p.iter().map(|c| c.to_string()).collect::<Vec<_>>()).collect::<Vec<_>>(), "share": share_json(s)}),
+        );
+        return;
+      }
+    }
+  }
+}
+
+/// every threshold once: deal one element, take exactly t iterator shares, recover
+fn threshold_sweep(rec: &mut Rec, ctx: &Ctx, t: u64, rng: &mut ChaCha20Rng) {
+  let t = t as u32 + 1;
+  let e = elem_choices(rng);
+  let secret = bf::to_le24(&e).to_vec();
+  let mut r = RecRng::new(case_rng(ctx, "sweep-stream", t as u64));
+  let sh = Sharks(t);
+  rec.evals += 1;
+  rec.ev("threshold_sweep");
+  rec.case(&("threshold", t));
+  if let Ok(ev) = sh.dealer_rng(&secret, &mut r) {
+    let shares: Vec<Share> = ev.take(t as usize).collect();
+    rec.ev("recover");
+    match sh.recover(&shares) {
+      Ok(b) if b == secret => {}
+      other => rec.violation(
+        "recover-wrong:threshold-sweep",
+        format!("threshold {}: exactly t iterator shares recovered {:?}", t, other.map(|b| hex_short(&b))),
+        json!({"t": t, "secret": hex(&secret)}),
+      ),
+    }
+  }
+}
+
 fn refused_secrets(rec: &mut Rec, _ctx: &Ctx, idx: u64, rng: &mut ChaCha20Rng) {
   let p = bf::p();
   let bad_vals: Vec<BigUint> = vec![
@@ -520,5 +577,10 @@ pub fn run(ctx: &Ctx) -> Rec {
   let mut rec = par_run(ctx, "dealing", n, |rec, i, rng| dealing(rec, ctx, i, rng));
   let r2 = par_run(ctx, "refused", ctx.n(600, 20_000), |rec, i, rng| refused_secrets(rec, ctx, i, rng));
   rec.merge(r2);
+  rec.merge(par_run(ctx, "mixed-degree", ctx.n(400, 20_000), |rec, i, rng| mixed_degree_evaluator(rec, ctx, i, rng)));
+  // every threshold 1..=T once (O(t^2) inversions each): 320 quick, 1400 thorough
+  let tmax = if ctx.thorough() { 1400 } else { 320 };
+  rec.merge(par_run(ctx, "threshold-sweep", tmax, |rec, i, rng| threshold_sweep(rec, ctx, tmax - 1 - i, rng)));
+  rec.note("threshold_sweep_max", json!(tmax));
   rec
 }
